@@ -30,7 +30,7 @@ ANCHORS = [("leuvenmapmatching/matcher/base.py", "BaseMatching.next"),
 CELLS = [f"cell:{f}:{m}:{'ne' if n else 'e'}" for f in gen.FAMILIES_ALL for m in ("planar", "latlon") for n in (False, True)]
 FLOORS = {c: 60 for c in CELLS}
 FLOORS.update({"pairs_runs": 2500, "triples_runs": 2500, "zero_distance_observations": 1500, "latlon_without_cutoff": 250,
-               "zero_length_road_maps": 150, "size_class:long_chain": 40, "container_runs:lists": 300, "container_runs:arrays": 300, "container_runs:array2d": 300, "container_runs:npfloat": 300, "size_class:long_trace": 5, "repeated_observation_traces": 200, "nonempty_matches": 1500})
+               "zero_length_road_maps": 150, "size_class:long_chain": 40, "reused_matcher_cases": 400, "container_runs:lists": 300, "container_runs:arrays": 300, "container_runs:array2d": 300, "container_runs:npfloat": 300, "size_class:long_trace": 5, "repeated_observation_traces": 200, "nonempty_matches": 1500})
 ASSUMPTIONS = ["valid input = finite coordinates, non-empty trace, positive noise parameters; the trace may be entirely off the map",
                "pairs-vs-triples and container variants (lists, numpy arrays, one 2-d array, numpy scalars): canonical results must be equal (==)"]
 
@@ -104,11 +104,17 @@ def gen_case(rng, i, tier):
     if latlon:
         to_latlon(case, rng)
     case["metric"] = "latlon" if latlon else "planar"
+    if not latlon and rng.random() < 0.2:
+        case["pre_trace"] = gen.gen_trace(rng, case["map"], k=rng.randint(1, 9))
     return case
 
 
 def run(case, triples):
     mt = build.make_matcher(build.make_inmem(case["map"]), case["cfg"])
+    if case.get("pre_trace"):
+        # the matcher object is not new: it matched another trace (given in the other form) before
+        pre = case["pre_trace"] if triples else gen.with_time(case["pre_trace"])
+        mt.match(build.trace(pre))
     tr = case["trace"]
     if triples:
         tr = gen.with_time(tr)
@@ -125,6 +131,8 @@ def check_case(ctx, case):
         ctx.count(f"size_class:{case['cls']}")
     if metric == "latlon" and cfg["max_dist"] is None and cfg["max_dist_init"] is None:
         ctx.count("latlon_without_cutoff")
+    if case.get("pre_trace"):
+        ctx.count("reused_matcher_cases")
     if "+zero" in case["map"].get("kind", ""):
         ctx.count("zero_length_road_maps")
     tr = case["trace"]
